@@ -58,6 +58,26 @@ def pingsSent (m : Mgr) : List Reply → List Nat
   | [] => []
   | _ :: rs => m.pingNumber :: pingsSent { pingNumber := m.pingNumber + 1 } rs
 
+/-! ### one connection over its whole life (spec-level, used by the C17 trace theorems) -/
+
+/-- what can happen to one connection between its creation and now: the user who holds it sends
+`WATCH` or anything else, or the pool recycles it (with whatever the server answers) -/
+inductive ConnOp | watch | other | recycle (r : Reply)
+deriving Repr, DecidableEq, Inhabited
+
+def connStep (mc : Mgr × Conn) : ConnOp → Mgr × Conn
+  | .watch => (mc.1, mc.2.watch)
+  | .other => (mc.1, { mc.2 with log := mc.2.log ++ [.other] })
+  | .recycle r => ((recycle mc.1 mc.2 r).1, (recycle mc.1 mc.2 r).2.1)
+
+/-- the watch state the SERVER derives from the commands it received, in order -/
+def watchStep (w : Bool) : Cmd → Bool
+  | .watch => true
+  | .unwatch => false
+  | _ => w
+
+def watchedOf (l : List Cmd) : Bool := l.foldl watchStep false
+
 /-! ### sequential driver of the pool (correspondence check) -/
 
 structure Pool where
